@@ -15,6 +15,7 @@ REGISTRY = {
     'C08': ('checks.streams', 'c08'),
     'C09': ('checks.batch', 'c09'),
     'C10': ('checks.tee', 'c10'),
+    'C11': ('checks.lifecycle', 'c11'),
     'C16': ('checks.streams', 'c16'),
     'C17': ('checks.iterqueue', 'c17'),
 }
